@@ -59,10 +59,14 @@ type closeInfo struct {
 
 func newCloseInfo(env *Env, ops []*OpRec) *closeInfo {
 	ci := &closeInfo{inv: map[uintptr]int{}, ret: map[uintptr]int{}, rootInv: inf, rootRet: inf, rootPtr: env.rootPtr()}
+	// "Test scopes and their metrics survive Close of a subscope" (C11): on a test
+	// scope the Close of a subscope ends nothing - the scope, and whatever is
+	// derived from it afterwards, goes on recording and showing up in snapshots.
+	testScope := env.Prog.Cfg.Stack == "test"
 	for _, r := range ops {
 		switch r.Op.K {
 		case "close":
-			if r.Ptr == 0 {
+			if r.Ptr == 0 || (testScope && r.Ptr != ci.rootPtr) {
 				continue
 			}
 			if r.Ptr == ci.rootPtr {
